@@ -2,6 +2,7 @@ package main
 
 import (
 	"encoding/json"
+	"os/exec"
 	"flag"
 	"fmt"
 	"os"
@@ -18,7 +19,7 @@ type PropSpec struct {
 	Level       string     `json:"level"`
 	Units       []UnitSpec `json:"units"`
 	Static      []StaticSpec `json:"static"`
-	Lemmas      []string   `json:"lemmas"`
+	Lemmas      []LemmaSpec `json:"lemmas"`
 	Bounded     []BoundedSpec `json:"bounded"`
 	Assumptions []string   `json:"assumptions"`
 	Explanation string     `json:"explanation"`
@@ -34,6 +35,11 @@ type UnitSpec struct {
 	UnreachableOK []string `json:"unreachable_ok"`
 }
 
+type LemmaSpec struct {
+	Pkg   string   `json:"pkg"`
+	Names []string `json:"names"`
+}
+
 type StaticSpec struct {
 	Kind string            `json:"kind"`
 	Args map[string]string `json:"args"`
@@ -41,10 +47,20 @@ type StaticSpec struct {
 }
 
 type BoundedSpec struct {
-	Name  string `json:"name"`
-	Cmd   string `json:"cmd"`
-	Bound string `json:"bound"`
-	Tier  string `json:"tier"` // "", "thorough"
+	Name   string `json:"name"`
+	Cmd    string `json:"cmd"`     // {repo} is replaced by the repository directory
+	Tier   string `json:"tier"`    // "", "thorough"
+	OnFail string `json:"on_fail"` // "engine-error" (a falsified ASSUMPTION) or "violation" (the real code against its contract)
+}
+
+type boundedReport struct {
+	Name      string   `json:"name"`
+	Bound     string   `json:"bound"`
+	Cases     int      `json:"cases"`
+	Falsified []string `json:"falsified"`
+	Checked   []string `json:"checked"`
+	Label     string   `json:"label"`
+	Seconds   float64  `json:"seconds"`
 }
 
 type KnownFindings struct {
@@ -188,9 +204,72 @@ func runCheck(id, tier, repo, keep string, writeEvidence bool) int {
 			engErrs = append(engErrs, fmt.Sprintf("%s: no obligations generated", u.Name))
 		}
 	}
+	for _, ls := range ps.Lemmas {
+		pk := ls.Pkg
+		if !strings.Contains(pk, "/") {
+			pk = modulePath + "/internal/" + pk
+		}
+		u := eng.VerifyLemmas(pk, ls.Names)
+		units = append(units, u)
+		for _, e := range u.errs {
+			engErrs = append(engErrs, u.Name+": "+e)
+		}
+		for k := range u.usedAssumed {
+			assumedUsed[k] = true
+		}
+		for k := range u.usedPureUF {
+			pureUsed[k] = true
+		}
+		all = append(all, u.obls...)
+	}
 	// static (dataflow / frame) obligations
 	statics, serrs := runStatics(eng, id, ps.Static)
 	engErrs = append(engErrs, serrs...)
+	if len(engErrs) > 0 {
+		sort.Strings(engErrs)
+		for _, e := range engErrs {
+			fmt.Printf("ENGINE-ERROR property=%s %s\n", id, e)
+		}
+		return 2
+	}
+	// bounded stand-ins and bounded validation of assumptions (never counted as discharged)
+	var boundedReps []boundedReport
+	boundedViolations := 0
+	for _, bs := range ps.Bounded {
+		if bs.Tier == "thorough" && tier != "thorough" {
+			continue
+		}
+		t0 := time.Now()
+		cmdline := strings.ReplaceAll(bs.Cmd, "{repo}", repo)
+		c := exec.Command("bash", "-c", cmdline)
+		c.Dir = verifDir
+		outB, err := c.Output()
+		var br boundedReport
+		lines := strings.Split(strings.TrimSpace(string(outB)), "\n")
+		if jerr := json.Unmarshal([]byte(lines[len(lines)-1]), &br); jerr != nil {
+			engErrs = append(engErrs, fmt.Sprintf("bounded check %s did not produce a report: %v %s", bs.Name, err, trunc(string(outB), 300)))
+			continue
+		}
+		br.Label = "bounded (not counted as discharged)"
+		br.Seconds = round3(time.Since(t0).Seconds())
+		boundedReps = append(boundedReps, br)
+		if len(br.Falsified) > 0 {
+			if bs.OnFail == "violation" {
+				for _, f := range br.Falsified {
+					name := "bounded " + bs.Name + " / " + strings.SplitN(f, " ", 2)[0]
+					if kfnd, ok := known[name]; ok {
+						fmt.Printf("KNOWN-FINDING: property=%s %s [%s]\n", id, kfnd.What, name)
+						continue
+					}
+					boundedViolations++
+					path := writeStaticReplay(id, &StaticResult{Name: name, Kind: "bounded", Text: br.Bound, Detail: f})
+					fmt.Printf("VIOLATION property=%s replay=%s obligation=%q bounded-check-on-real-code %s\n", id, path, name, f)
+				}
+			} else {
+				engErrs = append(engErrs, fmt.Sprintf("assumed axiom falsified by bounded validation (%s): %s", bs.Name, strings.Join(br.Falsified, "; ")))
+			}
+		}
+	}
 	if len(engErrs) > 0 {
 		sort.Strings(engErrs)
 		for _, e := range engErrs {
@@ -298,6 +377,7 @@ func runCheck(id, tier, repo, keep string, writeEvidence bool) int {
 	if total == 0 {
 		return engineError(id, "zero obligations")
 	}
+	violations += boundedViolations
 	if violations > 0 && exit == 0 {
 		exit = 1
 	}
@@ -338,6 +418,7 @@ func runCheck(id, tier, repo, keep string, writeEvidence bool) int {
 			"load_seconds":             round3(loadS),
 			"contract_files":           relFiles(eng.contractFiles),
 			"assume_count":             eng.cs.Assumes,
+			"bounded":                  boundedReps,
 		}
 		if ps.Explanation != "" {
 			cov["explanation"] = ps.Explanation
